@@ -39,6 +39,11 @@ package storage
 //@   let keyc, cerr := call[cid.Cast#0]
 
 //@ func (*StorageCar).Finalize
+//@   call[fmt.Errorf#0] assert refuses_only_a_second_finalize [C04]: sc.closed && sc.opts.WriteAsCarV1
+//@   call[fmt.Errorf#2] assert refuses_only_a_second_finalize [C04]: sc.closed && !sc.opts.WriteAsCarV1
+//@   call[store.Finalize#0] assert only_the_first_time [C04,C05]: !old(sc.closed) && !sc.opts.WriteAsCarV1
+//@   ensures a_storage_that_is_not_writable_is_left_alone [C04]: !typeis(old(sc.idx), "*v2/index.InsertionIndex") || old(sc.writer) == nil ==> err == nil && sc.closed == old(sc.closed)
+//@   ensures a_second_finalize_is_an_error [C04]: typeis(old(sc.idx), "*v2/index.InsertionIndex") && old(sc.writer) != nil && old(sc.closed) ==> err != nil
 //@   requires unlocked [C08]: held(sc.mu) == 0
 //@   requires writer: sc.dataWriter != nil || sc.opts.WriteAsCarV1 || sc.writer == nil
 //@   requires writer_kind: sc.writer == nil || typeis(sc.writer, "*v2/storage.positionTrackingWriter")
@@ -89,6 +94,10 @@ package storage
 // options, under the read lock; identity CIDs are answered without a lookup only when they are not stored.
 
 //@ func (*StorageCar).Has
+//@   let nf := call[errors.Is#0]
+//@   call[errors.Is#0] assert asks_whether_the_lookup_found_nothing [C04,C07]: arg0 == ferr && arg1 == index.ErrNotFound
+//@   ensures other_lookup_errors_are_reported [C04,C07]: executed("store.FindCid#0") && ferr != nil && !nf ==> err == ferr && !result0
+//@   ensures a_missing_key_is_not_an_error [C04,C07]: executed("store.FindCid#0") && nf ==> err == nil && !result0
 //@   requires unlocked [C08]: held(sc.mu) == 0
 //@   let keyc, cerr := call[cid.Cast#0]
 //@   let _, idok, iderr := call[store.IsIdentity#0]
@@ -106,6 +115,10 @@ package storage
 //@   ensures released [C08]: held(sc.mu) == 0
 
 //@ func (*StorageCar).GetStream
+//@   let nf := call[errors.Is#0]
+//@   call[errors.Is#0] assert asks_whether_the_lookup_found_nothing [C04,C07]: arg0 == ferr && arg1 == index.ErrNotFound
+//@   ensures other_lookup_errors_are_reported [C04,C07]: executed("store.FindCid#0") && ferr != nil && !nf ==> err == ferr && result0 == nil
+//@   ensures a_missing_block_is_a_typed_not_found [C04,C07]: executed("store.FindCid#0") && nf ==> typeis(err, "v2/storage.ErrNotFound") && result0 == nil
 //@   requires unlocked [C08]: held(sc.mu) == 0
 //@   let keyc, cerr := call[cid.Cast#0]
 //@   let digest, idok, iderr := call[store.IsIdentity#0]
@@ -127,6 +140,9 @@ package storage
 // to the reader itself (v1) or to the payload window (v2).
 
 //@ func OpenReadable
+//@   check roots_of_a_v1_source [C07]: err == nil && header.Version == 1 ==> sc.roots == header.Roots && ref(result0) == ref(sc)
+//@   call[car.LoadIndex#0] assert into_a_fresh_insertion_index [C07]: arg0 != nil && ref(arg0) == ref(sc.idx) && typeis(arg0, "*v2/index.InsertionIndex")
+//@   call[car.LoadIndex#1] assert into_a_fresh_insertion_index [C07]: arg0 != nil && ref(arg0) == ref(sc.idx) && typeis(arg0, "*v2/index.InsertionIndex")
 //@   call[carv1.ReadHeader#0] assert configured_header_limit [C09]: arg1 == sc.opts.MaxAllowedHeaderSize
 //@   let header, herr := call[carv1.ReadHeader#0]
 //@   let spos, serr := call[Seeker.Seek#0]
